@@ -119,6 +119,17 @@ func setOutgoingHeader(header http.Header, md metadata.MD) {
 	}
 }
 
+// setOutgoingTrailer writes md as trailers. The keys are not known when the
+// header is sent, so they cannot be announced in the Trailer header and are
+// written with the http.TrailerPrefix instead.
+func setOutgoingTrailer(header http.Header, md metadata.MD) {
+	tr := make(http.Header, len(md))
+	setOutgoingHeader(tr, md)
+	for k, vs := range tr {
+		header[http.TrailerPrefix+k] = vs
+	}
+}
+
 func encodeGrpcMessage(msg string) string {
 	var (
 		sb  strings.Builder
@@ -606,13 +617,11 @@ func (m *Mux) serveGRPC(w http.ResponseWriter, r *http.Request) {
 		}
 		h.Set("Grpc-Status-Details-Bin", encodeBinHeader(stBytes))
 	}
-	setOutgoingHeader(h, stream.trailer)
+	setOutgoingTrailer(h, stream.trailer)
 
 	if sh := m.opts.statsHandler; sh != nil {
 		endTime := time.Now()
 
-		// Try to send Trailers, might not be respected.
-		setOutgoingHeader(w.Header(), stream.trailer)
 		sh.HandleRPC(ctx, &stats.OutTrailer{
 			Trailer: stream.trailer.Copy(),
 		})
